@@ -1,0 +1,38 @@
+//go:build verif
+
+package starlarkstruct
+
+// Contracts for the deductive verification in /verif (comment-only file; the
+// build tag keeps it out of every ordinary build).
+
+// ---- freezing (C04, C05). A struct's flag is written only while it is not yet frozen (so that
+// re-freezing a shared frozen struct performs no write), only ever with true, and a newly
+// built struct starts unfrozen (otherwise Freeze would skip its fields).
+//@ protect [C05] Struct.frozen : !owner.frozen
+//@ monotone [C04] Struct.frozen : value == true
+//@ func Struct.Freeze
+//@   prop C04 C05
+//@   requires s != nil
+//@   modifies starlark.List.frozen, starlark.hashtable.frozen, Struct.frozen, $mem:bool, $ghost:frz
+//@   invariant 1 rangeindex >= -1 && s.frozen && forall(k, 0, rangeindex + 1, frz(s.entries[k].value)) && frzmono() && mono(starlark.List.frozen) && mono(starlark.hashtable.frozen)
+//@   ensures ghost: frz(s)
+//@   ensures s.frozen && frzmono() && mono(starlark.List.frozen) && mono(starlark.hashtable.frozen)
+//@   ensures fields: !old(s.frozen) ==> forall(k, 0, len(s.entries), frz(s.entries[k].value))
+//@ func Module.Freeze
+//@   prop C04
+//@   modifies starlark.List.frozen, starlark.hashtable.frozen, Struct.frozen, $mem:bool, $ghost:frz
+//@   ensures ghost: frz(m)
+//@ func FromKeywords
+//@   prop C04
+//@   ensures starts_unfrozen: result != nil && freshobj(result) && !result.frozen
+//@ func FromStringDict
+//@   prop C04
+//@   ensures starts_unfrozen: result != nil && freshobj(result) && !result.frozen
+//@ func Struct.Binary
+//@   prop C04
+//@   ensures sum_starts_unfrozen: result0 != nil ==> typeis(result0, *Struct) && !as(result0, *Struct).frozen && freshobj(as(result0, *Struct))
+// struct comparison takes part in the recursion of starlark.CompareDepth (see there)
+//@ func structsEqual
+//@   prop C11
+//@   requires depth >= 1
+//@   decreases depth, 1
